@@ -783,6 +783,11 @@ func (c *vT) checkC13(q string) {
 		}
 		sts[i] = st
 	}
+	if vParamDef("other", 0) > 0 {
+		// an unrelated trie that stores prefixes is built while the four are alive
+		_, err := NewSlimTrie(encode.U16{}, []string{"\x00\x10zz", "\x00\x11\x7fyy", "\x00\x11\x80xx", "qrst"}, []uint16{9, 8, 7, 6}, Opt{Complete: Bool(true)})
+		vAssert(err == nil, "build-ok")
+	}
 	found := make([]bool, 4)
 	vals := make([]interface{}, 4)
 	for i := range sts {
